@@ -151,7 +151,7 @@ impl DocCfg {
       cbor_only: r.chance(1, 2),
       floats: r.chance(2, 3),
       edge_numbers: r.chance(2, 3),
-      long_strings: r.chance(1, 6),
+      long_strings: r.chance(1, 4),
     }
   }
 }
@@ -171,7 +171,30 @@ pub fn gen_int(r: &mut Rng, cfg: &DocCfg) -> i128 {
   }
 }
 
+/// A text whose UTF-8 length is near a power of two (8 .. 4096) with a 2-4 byte character that starts up to
+/// three bytes before the boundary: code that cuts, echoes, chunks or indexes text by byte offsets meets a
+/// character that straddles its limit.
+pub fn boundary_doc_text(r: &mut Rng) -> String {
+  let b = *r.pick(&[8usize, 16, 32, 64, 64, 64, 128, 256, 512, 1024, 4096]);
+  let atom = *r.pick(&["é", "漢", "€", "😀", "\u{7ff}", "\u{10ffff}"]);
+  let start = b - r.range(1, atom.len().max(2) - 1).min(b);
+  let filler = *r.pick(&['7', 'a', 'Z', ' ', '-']);
+  let mut s = String::new();
+  while s.len() < start {
+    s.push(filler);
+  }
+  s.push_str(atom);
+  let tail = r.below(b / 2 + 2);
+  for _ in 0..tail {
+    s.push(filler);
+  }
+  s
+}
+
 pub fn gen_text(r: &mut Rng, cfg: &DocCfg) -> String {
+  if cfg.long_strings && r.chance(1, 4) {
+    return boundary_doc_text(r);
+  }
   if cfg.long_strings && r.chance(1, 4) {
     let unit = *r.pick::<&str>(TEXT_POOL);
     let n = r.range(2, 40);
@@ -314,6 +337,9 @@ pub fn perturb(r: &mut Rng, cfg: &DocCfg, d: &Doc) -> Doc {
       Doc::Map(m)
     }
     Doc::Tag(t, x) if r.coin() => Doc::Tag(*t, Box::new(perturb(r, cfg, x))),
+    // a text stays a text but no longer the one the schema was inferred from (so that text controls
+    // and literals reject it), half of the time one with a character straddling a power-of-two offset
+    Doc::Text(_) if r.coin() => Doc::Text(if r.coin() { boundary_doc_text(r) } else { gen_text(r, cfg) }),
     _ => gen_scalar(r, cfg),
   }
 }
